@@ -905,12 +905,13 @@ theorem FDescr.out {n text : Bytes} {x0 : Option Bytes} {d d' : Cat} (h : (FDesc
       (d.getTag n).map (·.descr) = some x0 := by
   obtain ⟨⟨h1, h2, h3, h4, h5, h6⟩, hs, ht, ⟨hg, hx⟩⟩ := h
   refine ⟨?_, hx⟩
-  have hs : d'.servers = d.servers := hs
-  have ht : d'.types = d.types := ht
-  have hg : d'.tags = d.tags.map (descrSet n text) := hg
+  have hs2 : d'.servers = d.servers := hs
+  have ht2 : d'.types = d.types := ht
+  have hg2 : d'.tags = d.tags.map (descrSet n text) := hg
+  clear hs ht hg hx
   cases d; cases d'
-  simp only at h1 h2 h3 h4 h5 h6 hs ht hg
-  subst h1 h2 h3 h4 h5 h6 hs ht hg
+  simp only at h1 h2 h3 h4 h5 h6 hs2 ht2 hg2
+  subst h1 h2 h3 h4 h5 h6 hs2 ht2 hg2
   rfl
 
 theorem descr_lift (banned : List Kind) (anc : List Up) (ts : List BTree) (c : Cat) (n text : Bytes)
